@@ -272,6 +272,11 @@ func jsonGenData(ctx *core.Ctx, r *gen.Rng, w *jWorld, s *tree.SNode, density, m
 		}
 	}
 	setLeaf := func(c *tree.Cont, kid *tree.SNode) bool {
+		if validOnly && kid.Leafable().Type().Format() == val.FmtUnion && r.Chance(1, 4) {
+			// a node may hold the string member of a union with a text that reads as a number (C04 finding 1)
+			c.Leaves[kid.Name] = val.String(gen.Pick(r, []string{"5", "-12", "007", "+3"}))
+			return true
+		}
 		v := jsonGenValue(r, kid.Leafable(), w, validOnly)
 		if v == nil {
 			ctx.Count("value-skipped:" + kid.Leafable().Type().Format().String())
